@@ -63,6 +63,8 @@ impl ProtocolKeyRegistration {
     pub fn register(&mut self, parameters: SignerRegistrationParameters) -> (r: Result<PartyId, StdError>)
         ensures reg_stakes(final(self)) == reg_stakes(old(self)),
                 r is Ok ==> reg_requests(final(self)) == reg_requests(old(self)).push(parameters),
+                // the party id returned is the pool id bound to the operational certificate, or the claimed one without certificate (C07)
+                r is Ok ==> r->Ok_0@ == registered_id(if parameters.party_id is Some { Some(parameters.party_id->Some_0@) } else { None }, parameters.operational_certificate),
     { unimplemented!() }
     #[verifier::external_body]
     pub fn close(self, protocol_params: &StmParameters) -> (r: Result<ProtocolClosedKeyRegistration, StdError>)
@@ -97,10 +99,70 @@ pub open spec fn same_request(a: SignerRegistrationParameters, b: SignerRegistra
     && a.verification_key_signature_for_concatenation == b.verification_key_signature_for_concatenation && a.kes_evolutions == b.kes_evolutions
 }
 
-pub struct SignerBuilder { pub protocol_parameters: ProtocolParameters, pub closed_key_registration: ProtocolClosedKeyRegistration }
+pub uninterp spec fn registered_id(claimed: Option<Seq<char>>, opcert: Option<ProtocolOpCert>) -> Seq<char>;
+/// the BLS verification key inside a signer's key material (`.vk` of the key-with-proof-of-possession)
+#[verifier::external_body] #[derive(Clone, Copy)] pub struct BlsVk { _p: core::marker::PhantomData<u8> }
+pub uninterp spec fn bls_vk(k: KeyBytes) -> BlsVk;
+#[verifier::external_body]
+fn bls_key_of(k: &KeyBytes) -> (r: BlsVk) ensures r == bls_vk(*k) { unimplemented!() }
+/// HashMap<PartyId, VerificationKeyForConcatenation> as a mathematical map (assumed contract on std)
+#[verifier::external_body] pub struct RegisteredKeys { _p: core::marker::PhantomData<u8> }
+pub uninterp spec fn key_map(m: &RegisteredKeys) -> Map<Seq<char>, BlsVk>;
+impl RegisteredKeys {
+    #[verifier::external_body]
+    pub fn new() -> (r: Self) ensures key_map(&r) == Map::<Seq<char>, BlsVk>::empty() { unimplemented!() }
+    #[verifier::external_body]
+    pub fn insert(&mut self, id: PartyId, k: BlsVk) -> (r: Option<BlsVk>) ensures key_map(final(self)) == key_map(old(self)).insert(id@, k) { unimplemented!() }
+}
+/// party id registered for signer j-1 -> ITS OWN key, for the first j signers (later entries win)
+pub open spec fn keys_of(signers: Seq<SignerWithStake>, j: int) -> Map<Seq<char>, BlsVk>
+    decreases j
+{
+    if j <= 0 { Map::empty() } else {
+        keys_of(signers, j - 1).insert(registered_id(Some(signers[j - 1].party_id@), signers[j - 1].operational_certificate), bls_vk(signers[j - 1].verification_key_for_concatenation))
+    }
+}
+
+pub struct SignerBuilder { pub protocol_parameters: ProtocolParameters, pub closed_key_registration: ProtocolClosedKeyRegistration, pub registered_verification_keys: RegisteredKeys }
+
+impl Clone for RegisteredKeys { #[verifier::external_body] fn clone(&self) -> (r: Self) ensures key_map(&r) == key_map(self) { unimplemented!() } }
+#[verifier::external_body] pub struct ProtocolClerk { _p: core::marker::PhantomData<u8> }
+pub uninterp spec fn clerk_source(c: &ProtocolClerk) -> (StmParameters, ProtocolClosedKeyRegistration);
+impl ProtocolClerk {
+    #[verifier::external_body]
+    pub fn new_clerk_from_closed_key_registration(p: &StmParameters, c: &ProtocolClosedKeyRegistration) -> (r: Self) ensures clerk_source(&r) == (*p, *c) { unimplemented!() }
+}
+pub struct MultiSigner { pub protocol_clerk: ProtocolClerk, pub protocol_parameters: StmParameters, pub registered_verification_keys: RegisteredKeys }
+impl MultiSigner {
+    #[verifier::external_body]
+    pub fn new(protocol_clerk: ProtocolClerk, protocol_parameters: StmParameters, registered_verification_keys: RegisteredKeys) -> (r: Self)
+        ensures r.protocol_clerk == protocol_clerk, r.protocol_parameters == protocol_parameters, r.registered_verification_keys == registered_verification_keys
+    { unimplemented!() }
+}
 
 impl SignerBuilder {
-// ---- extracted from mithril-common/src/protocol/signer_builder.rs:38 (fn new) ----
+// ---- extracted from mithril-common/src/protocol/signer_builder.rs:90 (fn build_multi_signer) ----
+fn build_multi_signer(&self) -> (ret: MultiSigner)
+    ensures clerk_source(&ret.protocol_clerk) == (stm_params(self.protocol_parameters), self.closed_key_registration),
+            ret.protocol_parameters == stm_params(self.protocol_parameters),
+            // the multi-signer verifies single signatures against the builder's own party-id -> key table
+            key_map(&ret.registered_verification_keys) == key_map(&self.registered_verification_keys),
+{
+        let stm_parameters = self.protocol_parameters.clone().into();
+        let clerk = ProtocolClerk::new_clerk_from_closed_key_registration(
+            &stm_parameters,
+            &self.closed_key_registration,
+        );
+
+        MultiSigner::new(
+            clerk,
+            stm_parameters,
+            self.registered_verification_keys.clone(),
+        )
+    }
+// ---- end of extracted text ----
+
+// ---- extracted from mithril-common/src/protocol/signer_builder.rs:41 (fn new) ----
 fn new(
         registered_signers: &[SignerWithStake],
         protocol_parameters: &ProtocolParameters,
@@ -111,7 +173,9 @@ fn new(
         && (forall|i: int| 0 <= i < reqs.len() ==> same_request(reqs[i], request_of(&registered_signers@[i])))
         // ... against the stake distribution derived from the same list, closed with the given parameters
         && ret->Ok_0.closed_key_registration == closed_from(stakes_of(registered_signers@, registered_signers@.len() as int), reqs, stm_params(*protocol_parameters))
-        && ret->Ok_0.protocol_parameters == *protocol_parameters,
+        && ret->Ok_0.protocol_parameters == *protocol_parameters
+        // the party-id -> key table handed to the multi-signer maps each REGISTERED party id to that signer's OWN key (C16)
+        && key_map(&ret->Ok_0.registered_verification_keys) == keys_of(registered_signers@, registered_signers@.len() as int),
 {
         if registered_signers.is_empty() {
             return Err(StdError {});
@@ -119,15 +183,17 @@ fn new(
 
         let stake_distribution = collect_stake_distribution(registered_signers);
         let mut key_registration = ProtocolKeyRegistration::init(&stake_distribution);
+        let mut registered_verification_keys = RegisteredKeys::new();
 
         for signer in it: registered_signers.iter() 
         invariant
             0 <= it.index@ <= registered_signers@.len(),
             reg_stakes(&key_registration) == stakes_of(registered_signers@, registered_signers@.len() as int),
             reg_requests(&key_registration).len() == it.index@,
+            key_map(&registered_verification_keys) == keys_of(registered_signers@, it.index@ as int),
             forall|i: int| 0 <= i < it.index@ ==> same_request(#[trigger] reg_requests(&key_registration)[i], request_of(&registered_signers@[i])),
     {
-            key_registration
+            let registered_party_id = key_registration
                 .register(SignerRegistrationParameters {
                     party_id: Some(string_to_owned(&signer.party_id)),
                     operational_certificate: signer.operational_certificate.clone(),
@@ -138,6 +204,10 @@ fn new(
                     
                     
                 })?;
+            registered_verification_keys.insert(
+                registered_party_id,
+                bls_key_of(&signer.verification_key_for_concatenation),
+            );
         }
 
         let closed_registration = key_registration.close(&protocol_parameters.clone().into())?;
@@ -145,6 +215,7 @@ fn new(
         Ok(Self {
             protocol_parameters: protocol_parameters.clone(),
             closed_key_registration: closed_registration,
+            registered_verification_keys,
         })
     }
 // ---- end of extracted text ----
